@@ -53,6 +53,36 @@ pub struct Pair<A, B = i32> {
     pub b: Vec<B>,
 }
 
+/// nesting: user types inside containers inside generics inside user types
+#[derive(TS, Serialize, Deserialize, Debug, Clone, Default, PartialEq)]
+pub struct Deep {
+    pub a: Gen<Vec<Inner>>,
+    pub m: BTreeMap<String, Gen<Option<UnitE>>>,
+    pub p: Option<Box<Pair<Inner, Gen<i32>>>>,
+}
+impl Deep {
+    pub fn v1() -> Self {
+        Deep {
+            a: Gen { g: vec![Inner::v1(), Inner::v2()], o: Some(vec![]) },
+            m: BTreeMap::from([("k".to_string(), Gen { g: Some(UnitE::B), o: Some(None) })]),
+            p: Some(Box::new(Pair { a: Inner::v2(), b: vec![Gen { g: 1, o: None }] })),
+        }
+    }
+}
+
+/// a type that refers to itself
+#[derive(TS, Serialize, Deserialize, Debug, Clone, Default, PartialEq)]
+pub struct Tree {
+    pub v: i32,
+    pub kids: Vec<Tree>,
+    pub parent: Option<Box<Tree>>,
+}
+impl Tree {
+    pub fn v1() -> Self {
+        Tree { v: 1, kids: vec![Tree { v: 2, kids: vec![Tree::default()], parent: None }], parent: Some(Box::new(Tree::default())) }
+    }
+}
+
 /// Stands for a type parameter `T` when the facts about `Option<T>`, `Vec<T>`, `Gen<T>` .. are measured:
 /// the same shape as the placeholder type the derive itself generates inside `decl()`.
 #[derive(Debug, Clone, Copy, PartialEq, Eq, Hash, PartialOrd, Ord)]
